@@ -13,12 +13,12 @@ C13_INV = ["TrashDrains", "CurNotTrashed"]
 C13_PROPS = ["NoAbandon", "NewBorrowsUseCurrent", "PublishedIsCurrent"]
 INV = C12_INV + C13_INV
 PROPS = C12_PROPS + C13_PROPS
-ACTIONS = ["BorrowStart", "BorrowTake", "Send", "Respond", "Timeout", "ConnFails", "ReplaceCheck", "ReplaceOpen",
+ACTIONS = ["BorrowStart", "BorrowMark", "BorrowTake", "Send", "Respond", "Timeout", "ConnFails", "ReplaceCheck", "ReplaceOpen",
            "ReplacePublish", "ReplaceRetire", "ShutdownMark", "ShutdownCloseCur", "ShutdownCloseTrash"]
 WITNESSES = {
     "C12": ["Witness_CapacityRefusal", "Witness_PublishAfterShutdown", "Witness_ShutdownWithTrash",
             "Witness_RetireAfterShutdown", "Witness_FailedOldWhileCurrentHealthy", "Witness_InlineShutdown",
-            "Witness_QuiescentAllClosed", "Witness_ShutdownDuringUse"],
+            "Witness_QuiescentAllClosed", "Witness_ShutdownDuringUse", "Witness_MarkAfterReplacement"],
     "C13": ["Witness_Trashed", "Witness_TrashClosedByRespond", "Witness_TrashClosedByTimeout", "Witness_Repick"],
 }
 
@@ -30,9 +30,15 @@ K_MID = {"MaxId": 2, "Threshold": 1, "Reqs": {1, 2, 3}, "NConns": 2, "MaxFails":
 K_MID3 = {"MaxId": 2, "Threshold": 1, "Reqs": {1, 2, 3}, "NConns": 3, "MaxFails": 1, "MaxConnFails": 1, "Ks": False}
 K_KS = dict(K_SMALL, Ks=True)          # with a session keyspace: the USE on the replacement connection is a step of its own
 K_KS3 = dict(K_SMALL3, Ks=True)
+K_RACE = {"MaxId": 2, "Threshold": 1, "Reqs": {1, 2, 3}, "NConns": 3, "MaxFails": 0, "MaxConnFails": 0, "Ks": False}   # two borrowers after the threshold
 K_BIG = {"MaxId": 3, "Threshold": 2, "Reqs": {1, 2, 3, 4}, "NConns": 3, "MaxFails": 1, "MaxConnFails": 1, "Ks": False}
 
 WHAT = {
+    "HostConnection.borrow_connection:replace-submitted-for-a-connection-that-is-no-longer-current":
+        "borrow_connection reads _connection without the lock and, under the lock, submits _replace for it whenever "
+        "_is_replacing is clear (pool.py 423-428): when that connection was replaced in between, the second _replace opens "
+        "another connection and overwrites the one the first replacement published, which is then referenced by nobody "
+        "and never closed (not even by shutdown())",
     "HostConnection.shutdown:trashed-connections-not-closed":
         "HostConnection.shutdown() leaves the connections of _trash open (pool.py 547-549 iterates the new empty set)",
     "HostConnection._replace:publishes-new-connection-after-shutdown":
@@ -191,16 +197,62 @@ def tlc_exhaustive(ctx, pid, consts, label, rep, coverage=True, timeout=900):
     return res
 
 
-def witnesses(ctx, pid, consts):
+def witnesses(ctx, pid, consts, rep=None):
+    """Every vacuity witness must be reachable; the behaviour TLC exhibits for it (a shortest path into the
+    situation the witness names) is then replayed on the real objects as a directed case."""
     def one(w):
         k = K_KS3 if w == "Witness_ShutdownDuringUse" else consts
         cfg = tlc.write_cfg(os.path.join(ctx.scratch, w + ".cfg"), constants=k, invariants=[w], deadlock=False)
-        return w, tlc.check_model("Pool", cfg, ctx.scratch, workers=2, timeout=600, heap="1g")
+        return w, k, tlc.check_model("Pool", cfg, ctx.scratch, workers=3, timeout=1800, heap="1g")
+    found = []
     with ThreadPoolExecutor(max_workers=6) as ex:
-        for w, res in ex.map(one, WITNESSES[pid]):
+        for w, k, res in ex.map(one, WITNESSES[pid]):
             if res.invariant != w:
-                raise tlc.MachineryError("vacuity witness %s not reachable with %s" % (w, name(consts)))
+                raise tlc.MachineryError("vacuity witness %s not reachable with %s" % (w, name(k)))
+            found.append((w, k, [st for _, st in res.trace()]))
     ctx.note("vacuity_witnesses_reached", len(WITNESSES[pid]))
+    if rep is None:
+        return
+    from harness.replay import pool as rp
+    clean = 0
+    for w, k, states in found:
+        if len(states) < 2:
+            raise tlc.MachineryError("no behaviour parsed for witness %s" % w)
+        div, met = rp.replay(k, states)
+        acts = _acts(states)
+        ctx.nontrivial(("witness", w))
+        _report(rep, pid, k, states, acts, div, met)
+        if not div and not met:
+            clean += 1
+    ctx.traces_validated += clean
+    ctx.count("behaviours_replayed", len(found))
+    ctx.count("behaviours_replayed_without_divergence", clean)
+    ctx.note("witness_behaviours_replayed", len(found))
+
+
+def _report(rep, pid, consts, states, acts, div, met):
+    from harness.replay import pool as rp
+    for m in met:
+        rep.report("C12", m["signature"],
+                   "%s. Replay: after %s the specification (what C12 requires) and the code differ: %s"
+                   % (WHAT[m["signature"]], m["action"]["name"], _jsonable_div(m)["diff"]),
+                   {"kind": "walk", "constants": _jc(consts), "actions": acts[:m["step"] - 1],
+                    "repairs": {str(x["step"]): {"signature": x["signature"], "info": x["repair"]} for x in met if x["step"] < m["step"]},
+                    "divergence": _jsonable_div(m)})
+    if div:
+        special = [k for k in ("_refused", "_exception", "_close_log") if k in div["diff"]]
+        own = ("C13" if special == ["_close_log"] else _owner_by_action(div["action"], states[div["step"]])) if special else \
+            rp.owner(div["signature"].replace("+other", ""), div["action"], rp.spec_view(states[div["step"]]), div["diff"])
+        rep.report(own, div["signature"],
+                   "replay diverges at step %d (%s): %s" % (div["step"], div["action"], _jsonable_div(div)["diff"]),
+                   {"kind": "walk", "constants": _jc(consts), "actions": acts[:div["step"] - 1],
+                    "repairs": {str(x["step"]): {"signature": x["signature"], "info": x["repair"]} for x in met},
+                    "divergence": _jsonable_div(div)})
+
+
+def _mark_after_replacement_window(nodes, w):
+    """A walk in which a borrower reaches the pool lock after the connection it read was replaced."""
+    return any(nodes[n]["act"]["name"] == "BorrowMark" and nodes[n]["on"][nodes[n]["act"]["r"] - 1] != nodes[n]["cur"] for n in w)
 
 
 def _publish_after_shutdown_window(nodes, w):
@@ -411,7 +463,7 @@ def run(ctx, pid):
         res = tlc_exhaustive(ctx, pid, K_MID, "mid", rep)
         if res is None:
             return rep.finish()
-        witnesses(ctx, pid, K_MID3)
+        witnesses(ctx, pid, K_MID3, rep)
         n = replay_graph(ctx, pid, K_SMALL, rep, max_walks=1200, label="graph")
         n += replay_graph(ctx, pid, K_CAP, rep, max_walks=300, label="graph_capacity")
         if pid == "C12":
@@ -423,12 +475,13 @@ def run(ctx, pid):
         res = tlc_exhaustive(ctx, pid, K_MID3, "mid3", rep)
         if res is None:
             return rep.finish()
-        witnesses(ctx, pid, K_MID3)
+        witnesses(ctx, pid, K_MID3, rep)
         if tlc_exhaustive(ctx, pid, K_BIG, "big", rep, coverage=False, timeout=3000) is None:
             return rep.finish()
         n = replay_graph(ctx, pid, K_SMALL3, rep, label="graph")
         n += replay_graph(ctx, pid, K_CAP, rep, label="graph_capacity")
-        n += replay_simulated(ctx, pid, K_BIG, rep, num=2500)
+        n += replay_simulated(ctx, pid, K_BIG, rep, num=1500)
+        n += replay_graph(ctx, pid, K_RACE, rep, max_walks=5000, label="graph_3req", prefer=_mark_after_replacement_window)
         if pid == "C12":
             if tlc_exhaustive(ctx, pid, dict(K_MID3, Ks=True), "mid3ks", rep, coverage=False) is None:
                 return rep.finish()
